@@ -782,6 +782,14 @@ class EvalMixin:
             decl = self.world.classes.get(obj.shape.cls)
             if decl is not None and '__getslice__' in decl.methods:
                 return decl.methods['__getslice__'](self, [obj, lo, hi], {})      # declared (assumed) slicing
+        if isinstance(obj, SV) and obj.shape is ValS and getattr(self.world, 'opaque_slices', False):
+            # slice of an opaque value: some value, a function of the value and the bounds only (nothing else is known)
+            from .shapes import Val
+            f = z3.Function('opaque_slice', Val, z3.IntSort(), z3.IntSort(), Val)
+            none = z3.Int('opaque_slice_no_bound')
+            a = as_arith(self.force(lo)) if lo is not None and not isinstance(lo, SNone) else none
+            b = as_arith(self.force(hi)) if hi is not None and not isinstance(hi, SNone) else none
+            return SV(ValS, f(obj.e, a, b))
         raise Unsupported('slice of %r' % (obj,))
 
     # ------------------------------------------------------------ lambda etc
